@@ -838,6 +838,11 @@ func (s *session) redialForClient(oldConn net.Conn) bool {
 	if s.redialForClientLocked == nil {
 		return false
 	}
+	// a local Close holds the lock while it waits for the pending calls:
+	// a message refused because of that close must fail, not wait for the lock
+	if status := s.getStatus(); status == statusActiveClosing || status == statusActiveClosed {
+		return false
+	}
 	s.lock.Lock()
 	defer s.lock.Unlock()
 	// Avoid repeated calls from write and readDisconnected methods
